@@ -104,6 +104,10 @@ def gen_plan(run_seed, tier, index):
                 m['gap'] = r.choice([0.05, 0.5, 3.0])
             msgs.append(m)
         sd = {'msgs': msgs}
+        if r.random() < 0.5:
+            # a sender that goes on as soon as the response is complete
+            # (Content-Length), without waiting for the server to close
+            sd['eager'] = True
         if mode == 'https_only' or (mode in ('https_ok', 'https_port') and
                                     r.random() < 0.5):
             sd['port'] = SPORT
